@@ -362,6 +362,11 @@ func parseTextWebVTT(i string, sa *StyleAttributes) (o Line) {
 
 		switch t {
 		case html.EndTagToken:
+			// Voice spans are not pushed to the stack, their end tag must not pop anything
+			if string(tr.Raw()) == "</v>" {
+				continue
+			}
+
 			// Pop the top of stack if we meet end tag
 			if len(sa.WebVTTTags) > 0 {
 				sa.WebVTTTags = sa.WebVTTTags[:len(sa.WebVTTTags)-1]
